@@ -31,6 +31,10 @@
 (*   lagging   followers that are up but have not applied the latest leader *)
 (*             change yet: they still follow the old leader in the old      *)
 (*             epoch (their fetch requests must be ignored by the new one)  *)
+(*   inflight  per follower: <<>> or <<r>>, r = a replication response the    *)
+(*             leader has sent and the follower has not acted upon yet      *)
+(*             [ok, hwE, hwL, base, data]: ok = the follower still is the   *)
+(*             incarnation that asked, following the leader epoch it asked  *)
 (*                                                                         *)
 (* Every action X is given as a guard G_X(args) and a record N_X(args) of  *)
 (* the next value of every variable (so that trace validation can test     *)
@@ -48,17 +52,20 @@ CONSTANTS R,            \* replicas (strings)
           HWFallback,   \* BOOLEAN: a follower may fail to reach a serving leader when reconciling
           ElectAlive,   \* BOOLEAN: a leader may be replaced while it is still up
           ElectDown,    \* BOOLEAN: a replica that is down may be elected
-          AllowLag      \* BOOLEAN: followers may apply a leader change later than the new leader
+          AllowLag,     \* BOOLEAN: followers may apply a leader change later than the new leader
+          LateResp      \* a replication response that reaches a follower late: "drop" = it is acted upon only by
+                        \* the follower that asked for it, while it still follows the leader (epoch) it asked (the
+                        \* code); defective variant "accept": whoever follows when it arrives stores it
 
-VARIABLES meta, up, role, log, hw, hwDisk, ec, isrOff, pend, caught, obs, committed, nacked, taint, lagging
-vars == <<meta, up, role, log, hw, hwDisk, ec, isrOff, pend, caught, obs, committed, nacked, taint, lagging>>
+VARIABLES meta, up, role, log, hw, hwDisk, ec, isrOff, pend, caught, obs, committed, nacked, taint, lagging, inflight
+vars == <<meta, up, role, log, hw, hwDisk, ec, isrOff, pend, caught, obs, committed, nacked, taint, lagging, inflight>>
 
 NoAcks == [acks |-> {}, nacks |-> {}]
 
 \* the current value of every variable except the history `committed`
 Cur == [meta |-> meta, up |-> up, role |-> role, log |-> log, hw |-> hw, hwDisk |-> hwDisk,
         ec |-> ec, isrOff |-> isrOff, pend |-> pend, caught |-> caught, obs |-> NoAcks,
-        nacked |-> nacked, taint |-> taint, lagging |-> lagging]
+        nacked |-> nacked, taint |-> taint, lagging |-> lagging, inflight |-> inflight]
 
 -----------------------------------------------------------------------------
 Min(S) == CHOOSE x \in S : \A y \in S : x <= y
@@ -126,6 +133,7 @@ Init ==
   /\ pend = [r \in R |-> <<>>]
   /\ caught = [r \in R |-> FALSE]
   /\ obs = NoAcks /\ committed = {} /\ nacked = {} /\ taint = {} /\ lagging = {}
+  /\ inflight = [r \in R |-> <<>>]
 
 \* committed = stored by every in-sync replica AND covered by the HW of the serving
 \* leader (the moment an ALL-policy acknowledgement can be sent); n = next values
@@ -141,7 +149,7 @@ Step(n) ==
   /\ meta' = n.meta /\ up' = n.up /\ role' = n.role /\ log' = n.log /\ hw' = n.hw
   /\ hwDisk' = n.hwDisk /\ ec' = n.ec /\ isrOff' = n.isrOff /\ pend' = n.pend
   /\ caught' = n.caught /\ obs' = n.obs /\ nacked' = n.nacked /\ taint' = n.taint
-  /\ lagging' = n.lagging
+  /\ lagging' = n.lagging /\ inflight' = n.inflight
   /\ committed' = committed \cup NewlyCommitted(n)
 
 \* ---- publish: the leader's message processing loop handles one batch
@@ -185,19 +193,27 @@ N_PublishRejected(v) == [Cur EXCEPT !.obs = [acks |-> {}, nacks |-> {v}], !.nack
 \* ---- one replication round trip of follower f (request + response)
 \* late: the response carries the HW after (TRUE) or before (FALSE) the commit
 \* loop ran on the leader (the two run concurrently in the code)
-G_Fetch(f) == f # Leader /\ up[f] /\ role[f] = "follower" /\ Leading(Leader) /\ f \notin lagging
+\* the replication loop of f is at the top of its loop (not waiting inside the handler of a response)
+LoopFree(f) == IF inflight[f] = <<>> THEN TRUE ELSE ~inflight[f][1].ok
+\* the follower's view of a leader change moved on / its partition object was replaced: a response
+\* still on its way to it was asked for by somebody who no longer exists
+Outdated(r) == IF inflight[r] = <<>> THEN <<>> ELSE <<[inflight[r][1] EXCEPT !.ok = FALSE]>>
+\* replicator.replicate: records are packed in order while the next one still fits;
+\* the first that does not fit ends the response (it leads the next one)
+Packed(l, req) ==
+  LET rest == Len(log[l]) - (req + 1)
+      n == IF req >= Newest(l) THEN 0
+           ELSE Cardinality({k \in 1..rest : SzSum(log[l], req + 2, req + 1 + k) <= FetchMax})
+  IN IF n = 0 THEN <<>> ELSE SubSeq(log[l], req + 2, req + 1 + n)
+
+G_Fetch(f) == f # Leader /\ up[f] /\ role[f] = "follower" /\ Leading(Leader) /\ f \notin lagging /\ LoopFree(f)
 N_Fetch(f, late) ==
   LET l == Leader
       req == Newest(f)
       io == IF f \in DOMAIN isrOff[l] THEN [isrOff[l] EXCEPT ![f] = Max2(@, req)] ELSE isrOff[l]
       cr == CommitRun(io, pend[l], hw[l], NewestAll)
       atEnd == req >= Newest(l)
-      \* replicator.replicate: records are packed in order while the next one still fits;
-      \* the first that does not fit ends the response (it leads the next one)
-      rest == Len(log[l]) - (req + 1)
-      n == IF atEnd THEN 0
-           ELSE Cardinality({k \in 1..rest : SzSum(log[l], req + 2, req + 1 + k) <= FetchMax})
-      data == IF n = 0 THEN <<>> ELSE SubSeq(log[l], req + 2, req + 1 + n)
+      data == Packed(l, req)
       sent == IF late THEN cr[1] ELSE hw[l]
   IN [Cur EXCEPT !.isrOff = [isrOff EXCEPT ![l] = io],
                  !.pend = [pend EXCEPT ![l] = cr[2]],
@@ -226,8 +242,48 @@ N_FetchLost(f) ==
                  !.up = [up EXCEPT ![f] = FALSE],
                  !.role = [role EXCEPT ![f] = "none"],
                  !.lagging = lagging \ {f},
+                 !.inflight = [inflight EXCEPT ![f] = <<>>],
                  !.obs = [acks |-> cr[3], nacks |-> {}],
                  !.taint = taint \cup cr[4]]
+
+\* ---- a replication round trip cut in two.  FetchHold: the leader handles the request of f
+\* (records the offset f reported, runs the commit loop, sends the response); the response is on
+\* its way.  Deliver: it reaches f - possibly after f crashed, after a leader change f has
+\* applied (or not yet: a lagging follower still follows the deposed leader and stores what it
+\* sent), after the partition was paused and resumed.  The specification: a response is acted
+\* upon only by the follower that asked for it while it still follows the leader epoch it asked;
+\* otherwise it is dropped whole (neither its HW nor its records are taken).
+\* mode: which HW the response carries ("late" = after the commit loop ran, "early" = before,
+\* "both" = undetermined until the delivery shows it: trace validation)
+G_FetchHold(f) == G_Fetch(f) /\ inflight[f] = <<>>
+N_FetchHold(f, mode) ==
+  LET l == Leader
+      req == Newest(f)
+      io == IF f \in DOMAIN isrOff[l] THEN [isrOff[l] EXCEPT ![f] = Max2(@, req)] ELSE isrOff[l]
+      cr == CommitRun(io, pend[l], hw[l], NewestAll)
+      atEnd == req >= Newest(l)
+  IN [Cur EXCEPT !.isrOff = [isrOff EXCEPT ![l] = io],
+                 !.pend = [pend EXCEPT ![l] = cr[2]],
+                 !.caught = [caught EXCEPT ![f] = IF atEnd THEN TRUE ELSE @],
+                 !.hw = [hw EXCEPT ![l] = cr[1]],
+                 !.inflight = [inflight EXCEPT ![f] =
+                      <<[ok |-> TRUE, base |-> req + 1, data |-> Packed(l, req),
+                         hwE |-> IF mode = "late" THEN cr[1] ELSE hw[l],
+                         hwL |-> IF mode = "early" THEN hw[l] ELSE cr[1]]>>],
+                 !.obs = [acks |-> cr[3], nacks |-> {}],
+                 !.taint = taint \cup cr[4]]
+
+G_Deliver(f) == inflight[f] # <<>>
+N_Deliver(f, useLate) ==
+  LET r == inflight[f][1]
+      sent == IF useLate THEN r.hwL ELSE r.hwE
+      acc == up[f] /\ role[f] = "follower" /\ (r.ok \/ LateResp = "accept")
+      fits == r.base = Len(log[f])
+  IN IF ~acc THEN [Cur EXCEPT !.inflight = [inflight EXCEPT ![f] = <<>>]]
+     ELSE [Cur EXCEPT !.inflight = [inflight EXCEPT ![f] = <<>>],
+                      !.hw = [hw EXCEPT ![f] = Max2(@, sent)],
+                      !.log = [log EXCEPT ![f] = IF fits THEN @ \o r.data ELSE @],
+                      !.ec = [ec EXCEPT ![f] = IF fits THEN AssignFrom(@, r.data, r.base) ELSE @]]
 
 \* ---- leader's health view of follower f: the lag window passed without f
 \* having been seen caught up
@@ -275,6 +331,7 @@ N_Crash(r) == [Cur EXCEPT !.up = [up EXCEPT ![r] = FALSE],
                           !.role = [role EXCEPT ![r] = "none"],
                           !.pend = [pend EXCEPT ![r] = <<>>],
                           !.hw = [hw EXCEPT ![r] = hwDisk[r]],
+                          !.inflight = [inflight EXCEPT ![r] = <<>>],
                           !.lagging = lagging \ {r}]
 
 \* follower f reconciles with leader n (truncateUncommitted): <<log, ec, tags>>
@@ -359,6 +416,7 @@ N_Elect(n, reach, lag) ==
                                                            ELSE -1] ELSE @],
                  !.pend = [r \in R |-> <<>>],
                  !.caught = [r \in R |-> FALSE],
+                 !.inflight = [r \in R |-> IF r \in lag THEN inflight[r] ELSE Outdated(r)],
                  !.taint = taint \cup UNION {res(f)[3] : f \in fol}]
 
 \* ---- the stream is paused and resumed (PAUSE_STREAM then RESUME_STREAM applied by
@@ -377,6 +435,7 @@ N_PauseResume ==
                  !.hwDisk = [r \in R |-> IF up[r] THEN hw[r] ELSE hwDisk[r]],
                  !.isrOff = [r \in R |-> IF up[r] THEN [x \in meta.isr |-> IF x = r THEN Newest(r) ELSE -1] ELSE isrOff[r]],
                  !.caught = [r \in R |-> FALSE],
+                 !.inflight = [r \in R |-> Outdated(r)],
                  !.log = [r \in R |-> IF r \in fol THEN res(r)[1] ELSE log[r]],
                  !.ec = [r \in R |-> IF r = l THEN ecl ELSE IF r \in fol THEN res(r)[2] ELSE ec[r]],
                  !.taint = taint \cup UNION {res(f)[3] : f \in fol}]
@@ -386,6 +445,8 @@ DoPublish(recs) == G_Publish(recs) /\ Step(N_Publish(recs))
 DoPublishRejected(v) == G_PublishRejected(v) /\ Step(N_PublishRejected(v))
 DoFetch(f, late) == G_Fetch(f) /\ Step(N_Fetch(f, late))
 DoFetchLost(f) == G_FetchLost(f) /\ Step(N_FetchLost(f))
+DoFetchHold(f, mode) == G_FetchHold(f) /\ Step(N_FetchHold(f, mode))
+DoDeliver(f, useLate) == G_Deliver(f) /\ Step(N_Deliver(f, useLate))
 DoLagExpire(f) == G_LagExpire(f) /\ Step(N_LagExpire(f))
 DoShrink(f) == G_Shrink(f) /\ Step(N_Shrink(f))
 DoExpand(f) == G_Expand(f) /\ Step(N_Expand(f))
@@ -394,7 +455,7 @@ DoCrash(r) == G_Crash(r) /\ Step(N_Crash(r))
 DoRestart(r, reach) == G_Restart(r, reach) /\ Step(N_Restart(r, reach))
 \* ---- a lagging follower's fetch: it still carries the old leader epoch, the
 \* new leader must ignore it (no progress is recorded, nothing is sent back)
-G_StaleFetch(f) == f \in lagging /\ up[f] /\ role[f] = "follower"
+G_StaleFetch(f) == f \in lagging /\ up[f] /\ role[f] = "follower" /\ LoopFree(f)
 N_StaleFetch(f) == Cur
 
 \* ---- a lagging follower applies the leader change: it reconciles with the leader
@@ -404,6 +465,7 @@ G_ApplyMeta(f, reach) ==
 N_ApplyMeta(f, reach) ==
   LET res == Reconcile(f, Leader, ec[Leader], log[f], ec[f], reach) IN
   [Cur EXCEPT !.lagging = lagging \ {f},
+              !.inflight = [inflight EXCEPT ![f] = Outdated(f)],
               \* ISR changes committed meanwhile are applied too
               !.isrOff = [isrOff EXCEPT ![f] = [x \in meta.isr |-> IF x \in DOMAIN @ THEN @[x] ELSE -1]],
               !.role = [role EXCEPT ![f] = "follower"],
